@@ -34,6 +34,7 @@ def initial_contents(LIB):
 
 def run(ck):
     sx = X.build_sysx()
+    hbind = X.build_h_bindself()     # the preload file as a mount point (bind-mounted single file): rename() onto it fails with EBUSY
     cli = build.build_cli('c20-cli', san='plain')
     libdir = os.path.join(ck.workdir, 'usr/lib')
     os.makedirs(libdir, exist_ok=True)
@@ -46,7 +47,7 @@ def run(ck):
     # the same contents with the preload file being a symbolic link, having a second hard link, or having leftover siblings
     # (ld.so.preload.bak / .old / ~ / .tmp from earlier tools or runs) next to it
     for base in ('one_foreign', 'own_middle', 'big_with_own'):
-        for kind in ('symlink', 'hardlink', 'siblings'):
+        for kind in ('symlink', 'hardlink', 'siblings', 'mountpoint'):
             contents['%s@%s' % (base, kind)] = contents[base]
     counter = [0]
 
@@ -71,7 +72,7 @@ def run(ck):
                 for sfx in ('.bak', '.old', '~', '.tmp', '.new'):
                     open(pf + sfx, 'wb').write(b'/stale/libstale.so\n')
         env = dict(CLEAN_ENV, SNOOPY_TEST_LD_SO_PRELOAD_PATH=pf, SNOOPY_TEST_LIBSNOOPY_SO_PATH=LIBP)
-        rep = X.run(sx, d, [cli, cmd], opts=['--whole', '--maxcalls', '5000'] + list(opts), env=env, timeout=60)
+        rep = X.run(sx, d, [cli, cmd], opts=['--whole', '--maxcalls', '5000'] + list(opts), env=env, timeout=60, prefix=([hbind, pf, '--'] if kind == 'mountpoint' and contents[cname] is not None else []))
         try:
             after = open(pf, 'rb').read()
         except FileNotFoundError:
@@ -92,7 +93,9 @@ def run(ck):
         evals += 1
         new = rep['after']
         expect[(c, cmd)] = new
-        if not rep.get('exited') or rep.get('exit_code') not in (0,):
+        if c.endswith('@mountpoint') and rep.get('exited') and new == contents[c]:
+            pass      # rename() onto a mount point fails (EBUSY): refusing, with the file untouched, is the correct outcome; the faults below still apply
+        elif not rep.get('exited') or rep.get('exit_code') not in (0,):
             ck.violation('C20:baseline_run_failed:%s:%s' % (cmd, c), {'report': {k: rep.get(k) for k in ('exit_code', 'term_sig', 'stderr')}})
             continue
         n = rep['ncalls']
